@@ -356,6 +356,11 @@ impl LocalPeerService {
             peer_service
                 .disconnect(key.clone(), circuit_id, connection_info.conn_id)
                 .await;
+            // a lock granted but not read yet would otherwise never be released
+            lock_receiver.close();
+            while let Ok(room) = lock_receiver.try_recv() {
+                lock_service.unlock(room).await;
+            }
         });
     }
     #[allow(clippy::too_many_arguments)]
